@@ -53,7 +53,12 @@ let () = serve (fun fn req ->
     let finish b = jbool (bfield b "broadcast") in
     let use_lock = (match jfield_opt req "use_lock" with Some j -> jbool j | None -> true) in
     let sched = SL.map jnat (jlist (jfield req "sched")) in
-    let st = run use_lock (nat_of_int nb) (c03_choose fpb sh strat amount) more finish sched
+    let locked = (match jfield_opt req "locked" with Some j -> jbool j | None -> false) in
+    let unsignable = (match jfield_opt req "unsignable" with Some j -> SL.map (fun x -> string_of_n (jn x)) (jlist j) | None -> []) in
+    let can_sign b (held : utxo list) =
+      let signing = (match jfield_opt builds.(int_of_nat b) "sign" with Some j -> jbool j | None -> false) in
+      not signing || (not (locked && held <> []) && not (SL.exists (fun u -> SL.mem (string_of_n u.uid) unsignable) held)) in
+    let st = run use_lock (nat_of_int nb) (c03_choose fpb sh strat amount) more finish can_sign sched
                  (init (wallet_of_json (jfield req "wallet"))) in
     JObj [("builds", JArr (SL.init nb (fun i ->
              let b = st.bs (nat_of_int i) in
